@@ -211,4 +211,6 @@ def paren_state(seq: B6, n: int) -> bool:
             depth = max(0, depth - 1)
         # line breaks are ignored (continuation mode) exactly while some '(' is open
         good = good and ((ply.current_state() == 'WSIGNORE') == (depth > 0))
+    if hx.ASPECT == 'C03':
+        return hx.ok(True)          # C03 only asks that the actions never raise
     return hx.ok(good)
